@@ -399,6 +399,7 @@ def verify_instance(db, contracts, c, inst_index, max_paths=400, time_budget=120
     res["inlined"] = sorted(eng.inlined)
     res["used_contracts"] = sorted(eng.used_contracts)
     res["lemmas"] = sorted(lemmas)
+    res["loopsigs"] = eng.seen_loopsigs
     res["solver_time"] = round(eng.stats["solver_time"], 3)
     res["solver_calls"] = eng.stats["solver_calls"]
     res["vacuity"] = eng.stats["vacuity"]
